@@ -206,4 +206,75 @@ def runSegs (compile : Bk → Option (List PCmd) × Bk) : Bk → List Seg → Li
       match runSegs compile b2 ss with
       | (rest, bf) => (out :: rest, bf)
 
+/-! ### histories with operations between `compile()` and `commit_subroutine()` -/
+
+/-- one event on a connection.  `compile σ` = `compile()` of the pending operations, the
+subroutine being instantiated with σ before it is committed; `commit` = `commit_subroutine` of
+the oldest compiled-but-uncommitted subroutine. -/
+inductive HEv
+  | build (op : BOp)
+  | flush
+  | compile (σ : String → Int)
+  | commit
+
+/-- bookkeeping, the compiled-but-uncommitted subroutines (already instantiated), and what was
+sent to the controller so far -/
+structure HSt where
+  bk : Bk
+  queue : List (List PCmd)
+  sent : List (List PCmd)
+  deriving Repr, DecidableEq
+
+/-- `none` = outside the vocabulary: an ordinary flush while a compiled subroutine is still
+uncommitted (the controller would see the subroutines in another order), or a commit with
+nothing compiled.  `resetAtCommit` models the variant in which `_reset()` runs inside
+`commit_subroutine` instead of `compile`/`commit_protosubroutine` (not the code; for a witness). -/
+def stepH (resetAtCommit : Bool) (s : HSt) : HEv → Option HSt
+  | .build op => some { s with bk := build s.bk op }
+  | .flush =>
+    if s.queue.isEmpty then
+      match flushOp s.bk with
+      | (none, b') => some { s with bk := b' }
+      | (some cs, b') => some { s with bk := b', sent := s.sent ++ [cs] }
+    else none
+  | .compile σ =>
+    match (if resetAtCommit then compileOld s.bk else compileOp s.bk) with
+    | (none, b') => some { s with bk := b' }
+    | (some cs, b') => some { s with bk := b', queue := s.queue ++ [cs.map (substCmd σ)] }
+  | .commit =>
+    match s.queue with
+    | [] => none
+    | c :: q => some { s with queue := q, sent := s.sent ++ [c],
+                              bk := if resetAtCommit then reset s.bk else s.bk }
+
+def runH (resetAtCommit : Bool) : HSt → List HEv → Option HSt
+  | s, [] => some s
+  | s, e :: es =>
+    match stepH resetAtCommit s e with
+    | some s' => runH resetAtCommit s' es
+    | none => none
+
+/-- the template values that will be filled into the operations built now: those of the next
+`compile` (none if the next terminator is an ordinary flush) -/
+def nextσ : List HEv → Option (String → Int)
+  | [] => none
+  | .build _ :: es => nextσ es
+  | .commit :: es => nextσ es
+  | .flush :: _ => none
+  | .compile σ :: _ => some σ
+
+def substBOp? (σ : Option (String → Int)) (op : BOp) : BOp :=
+  match σ with
+  | some f => substBOp f op
+  | none => op
+
+/-- the same host program written with the concrete values and ordinary flushes: every
+`compile` becomes a `flush`, commits disappear -/
+def directH : List HEv → List HEv
+  | [] => []
+  | .build op :: es => .build (substBOp? (nextσ es) op) :: directH es
+  | .flush :: es => .flush :: directH es
+  | .compile _ :: es => .flush :: directH es
+  | .commit :: es => directH es
+
 end NQ.Tpl
